@@ -345,6 +345,7 @@ pub fn decode_history(data: &[u8]) -> (u8, Vec<crate::hist::Op>) {
             28 => Op::Rebuild(u16_(&mut r)),
             29 => Op::Repeat,
             30 => Op::BinPair(BINOPS[(b >> 5) as usize % 8], BINOPS[r.u8() as usize % 8], u16_(&mut r), u16_(&mut r)),
+            31 if b >> 5 >= 4 => Op::DumpRound(u16_(&mut r), u16_(&mut r), b >> 5),
             _ => Op::SubstAlt(b >> 5, r.u8(), u16_(&mut r)),
         };
         ops.push(op);
